@@ -25,6 +25,7 @@ Quiescent == loop.phase = "idle"
 Bad == \/ ~NoRegistrationAfterDeactivate \/ ~StaysDeactivated \/ ~ParametersRespected
        \/ ~NoSilentOrphan \/ ~PartialVisible \/ ~NoLapse
 EmitBad == (Hist /\ Bad) => PrintT(ToJson(hist))
+EmitLapse == (Hist /\ ~NoLapse) => PrintT(ToJson(hist))
 Emit == (Hist /\ Quiescent /\ now = MaxTime /\ api = MaxApi /\ env = MaxEnv /\ ticked) => PrintT(ToJson(hist))
 \* simulation: print the walk when it has reached the length bound
 SimLen == 26
